@@ -32,6 +32,13 @@ tie (T-acc + T-diff), every run:
       elements, with and without defaults).  The name model and the sharing check use the EFFECTIVE arguments: every generated
       class records what construct() really received, and "alone" = the same instance of a second, identically built hierarchy
       (same arguments, same set_param calls) translated as a translation top.  All designs import ONE library module.
+  (g) VerilogPlaceholder components (external .v sources written to the scratch dir; with params / port_map) appear as children,
+      in lists, below children and as translation tops, with and without explicit_module_name (also on ordinary instances whose
+      definition nobody shares).  The parser evaluates the `ifndef guards of the pickled wrappers, so "defined exactly once"
+      is judged on the preprocessed text.  For every design ONE VerilogTranslationPass run with several separately enabled
+      sub-trees (placeholder tops before and after ordinary ones) is compared file by file with each sub-tree translated alone
+      (in-process with a fresh pass object, and first-thing in fresh worker processes); every emitted file goes through
+      modules_ok and the name -> body map of the whole file set through functional_b, both evaluated in Coq.
   (e) every IEEE 1800-2017 keyword is used as port / wire / instance / update-block name of a small design: the design is
       rejected by the translator or its table must pass idents_legal_b in Coq.  The 27 keywords pymtl3's table never had are a
       fixed list in this file (not read from the implementation).
@@ -51,14 +58,43 @@ class ParseError(Exception): pass
 TOK = re.compile(r"[A-Za-z_][A-Za-z0-9_$]*|@B|@E|\d+'[sS]?[bBdDhHoO][0-9a-fA-F_xXzZ?]+|\d+|'\{|<<=|>>=|<=|>=|==|!=|<<|>>|&&|\|\||\+=|-=|\S")
 ID = re.compile(r'[A-Za-z_][A-Za-z0-9_$]*\Z')
 
+def preprocess(text):
+  """the conditional-compilation subset the translator and the pickled placeholder wrappers use: `ifndef/`ifdef/`else/`endif,
+  `define of guard macros, `line.  Text in inactive regions is dropped (a guarded second copy of a module is NOT a second
+  definition).  Anything else that starts with a backtick fails closed."""
+  defined, stack, out = set(), [], []
+  for line in text.split('\n'):
+    t = line.strip()
+    if t.startswith('`'):
+      w = re.sub(r'/\*.*?\*/', '', t).split('//')[0].split()
+      d = w[0]
+      if d in ('`ifndef', '`ifdef'):
+        if len(w) < 2: raise ParseError(f'directive without macro name: {t!r}')
+        stack.append((w[1] in defined) == (d == '`ifdef'))
+      elif d == '`else':
+        if not stack: raise ParseError('`else without `ifdef')
+        stack[-1] = not stack[-1]
+      elif d == '`endif':
+        if not stack: raise ParseError('`endif without `ifdef')
+        stack.pop()
+      elif d == '`define':
+        if all(stack):
+          if len(w) < 2: raise ParseError(f'directive without macro name: {t!r}')
+          defined.add(w[1])
+      elif d == '`line': pass
+      else: raise ParseError(f'unsupported compiler directive {t[:60]!r}')
+      out.append(''); continue
+    out.append(line if all(stack) else '')
+  if stack: raise ParseError('unterminated `ifdef')
+  return '\n'.join(out)
+
 def strip_comments(text):
   out = []
-  for line in text.split('\n'):
+  for line in preprocess(text).split('\n'):
     m = re.match(r'\s*// Component (\S.*)$', line)
     if m and not line.startswith('// '): out.append(' @B '); continue       # markers around sub-component declarations
     m = re.match(r'\s*// End of component (\S.*)$', line)
     if m and not line.startswith('// '): out.append(' @E '); continue
-    if line.lstrip().startswith('`'): out.append(''); continue                # `ifndef SYNTHESIS / `endif
     i = line.find('//')
     out.append(line if i < 0 else line[:i])
   return '\n'.join(out)
@@ -78,7 +114,7 @@ def parse_sv(text):
   src = strip_comments(text)
   types, mods = [], []
   pos = 0
-  item = re.compile(r'typedef\s+struct\s+packed\s*\{(?P<f>.*?)\}\s*(?P<tn>[^;]*?)\s*;|^module[ \t]+(?P<mn>[^\n]*?)[ \t]*\n\((?P<ports>.*?)\n\);(?P<body>.*?)\nendmodule[ \t]*$', re.S | re.M)
+  item = re.compile(r'typedef\s+struct\s+packed\s*\{(?P<f>.*?)\}\s*(?P<tn>[^;]*?)\s*;|^module[ \t]+(?P<mn>[^\n]*?)[ \t]*\n(?:#\((?P<par>[^\n]*)\)[ \t]*\n)?\((?P<ports>.*?)\n\);(?P<body>.*?)\nendmodule[ \t]*$', re.S | re.M)
   for m in item.finditer(src):
     gap = src[pos:m.start()].strip()
     if gap: raise ParseError(f'unrecognised text between items: {gap[:80]!r}')
@@ -88,6 +124,11 @@ def parse_sv(text):
       types.append((m.group('tn'), fields))
       continue
     decls, insts, loops = [], [], []
+    for pd in (m.group('par') or '').split(','):
+      if pd.strip():
+        pm_ = re.match(r'\s*parameter\b(.*?)=', pd)
+        if not pm_: raise ParseError(f'unrecognised module parameter {pd.strip()!r}')
+        decls.append((last_name(pm_.group(1)), 'param'))
     for pl in m.group('ports').split('\n'):
       pl = pl.strip().rstrip(',').strip()
       if not pl: continue
@@ -148,6 +189,18 @@ def parse_sv(text):
         i = j + 1; continue
       # instance  `<module name> <instance name> ( .port( wire ), ... );`   or   `<struct type> <name> [dims];`
       j = until_semi(i)
+      if i + 2 < j and tk[i + 1][0] == '#' and tk[i + 2][0] == '(':
+        # `<module> #( .p( v ), ... ) <instance> ( ... );`
+        k, depth = i + 2, 0
+        while k < j:
+          if tk[k][0] == '(': depth += 1
+          elif tk[k][0] == ')':
+            depth -= 1
+            if depth == 0: break
+          k += 1
+        if k + 2 >= j or tk[k + 2][0] != '(': raise ParseError(f'unrecognised parametrised instance {body[tk[i][1]:tk[j][2]][:80]!r}')
+        insts.append((tk[i][0], tk[k + 1][0])); decls.append((tk[k + 1][0], 'instance'))
+        i = j + 1; continue
       par = next((k for k in range(i, j) if tk[k][0] == '('), None)
       if par is not None:
         head = body[tk[i][1]:tk[par][1]].split()
@@ -159,7 +212,7 @@ def parse_sv(text):
           raise ParseError(f'unrecognised module item {stmt[:80]!r}')
         decls.append((last_name(stmt), 'subcomp-port-wire' if insub else 'signal'))
       i = j + 1
-    btxt = ' '.join(t[0] for t in tokens(m.group('ports'))) + ' ;; ' + ' '.join(t[0] for t in tk if t[0] not in ('@B', '@E'))
+    btxt = ' '.join(t[0] for t in tokens((m.group('par') or '') + ' ;; ' + m.group('ports'))) + ' ;; ' + ' '.join(t[0] for t in tk if t[0] not in ('@B', '@E'))
     mods.append({'name': m.group('mn'), 'body': btxt, 'insts': insts, 'decls': decls, 'loops': loops})
   if src[pos:].strip(): raise ParseError(f'unrecognised trailing text {src[pos:].strip()[:80]!r}')
   if not mods: raise ParseError('no module found')
@@ -217,7 +270,9 @@ def digest(pstr):
 # ====================================================================== design generator
 PRELUDE = '''
 from pymtl3 import *
-import inspect as _insp
+import inspect as _insp, os as _os
+from pymtl3.passes.backends.verilog import VerilogPlaceholder, VerilogPlaceholderPass, VerilogTranslationPass
+_HERE = _os.path.dirname( _os.path.abspath( __file__ ) )
 def eff_record( d ):
   # what construct() REALLY received (positional, keyword, default or set_param), in signature order
   return [ ( k, d[k] ) for k in list( _insp.signature( type( d['s'] ).construct ).parameters )[1:] ]
@@ -365,6 +420,28 @@ class Off( Component ):
       def up_pos():
         s.out @= s.in_ + off
 def some_function(): pass
+# external Verilog wrapped by PyMTL (the .v files are written next to this module by the harness)
+class VAdd( Component, VerilogPlaceholder ):
+  def construct( s, nbits=8, amt=0 ):
+    s._c13_args = eff_record( locals() )
+    s.in_ = InPort( nbits ); s.out = OutPort( nbits )
+    s.set_metadata( VerilogPlaceholderPass.src_file, _HERE + '/C13VAdd.v' )
+    s.set_metadata( VerilogPlaceholderPass.top_module, 'C13VAdd' )
+    s.set_metadata( VerilogPlaceholderPass.params, { 'nbits': nbits, 'amt': amt } )
+class VPass( Component, VerilogPlaceholder ):
+  def construct( s ):
+    s._c13_args = eff_record( locals() )
+    s.in_ = InPort( 8 ); s.out = OutPort( 8 )
+    s.set_metadata( VerilogPlaceholderPass.src_file, _HERE + '/C13VPass.v' )
+    s.set_metadata( VerilogPlaceholderPass.top_module, 'C13VPass' )
+    s.set_metadata( VerilogPlaceholderPass.port_map, { s.in_: 'd', s.out: 'q' } )
+class Uniq( Component ):
+  def construct( s, uid ):
+    s._c13_args = eff_record( locals() )
+    s.in_ = InPort( 8 ); s.out = OutPort( 8 )
+    @update
+    def up_uniq():
+      s.out @= s.in_ + uid
 class IfcLeaf( Component ):
   def construct( s ):
     s._c13_args = eff_record( locals() )
@@ -378,6 +455,31 @@ class Cb( Component ):
     s.in_ = InPort( 8 ); s.out = OutPort( 8 )
     s.out //= s.in_
 '''
+VFILES = {'C13VAdd.v': '''module C13VAdd
+#( parameter nbits = 8, parameter amt = 0 )
+(
+  input  logic clk,
+  input  logic reset,
+  input  logic [nbits-1:0] in_,
+  output logic [nbits-1:0] out
+);
+  assign out = in_ + amt;
+endmodule
+''', 'C13VPass.v': '''module C13VPass
+(
+  input  logic clk,
+  input  logic reset,
+  input  logic [7:0] d,
+  output logic [7:0] q
+);
+  assign q = d;
+endmodule
+'''}
+def write_lib(scratch, auxmod):
+  (scratch / f'{auxmod}.py').write_text(AUX)
+  (scratch / f'{auxmod.replace("aux", "lib")}.py').write_text(PRELUDE)      # ONE library module shared by all designs of the run
+  for fn, txt in VFILES.items(): (scratch / fn).write_text(txt)
+
 AUX = '''
 from pymtl3 import *
 class Leaf( Component ):
@@ -428,6 +530,8 @@ class HGen:
     s.features = set()
     s.classes = []
     s.kidmap = {}
+    s.uid = 10
+    s.post = []
 
   def leaf_expr(s):
     r = s.rng
@@ -457,7 +561,12 @@ class HGen:
       return f'Wide( {kw} )', 'wide'
     if x < 0.74:
       return f'Off( 8, {r.choice([0, 1, 2, 255])} )', 'off'
-    if x < 0.79:
+    if x < 0.765:
+      return r.choice(['VAdd()', 'VAdd( 8, 3 )', 'VAdd( amt=2 )', 'VAdd( 8 )', 'VPass()', 'VPass()']), 'vph'
+    if x < 0.78:
+      s.uid += 1
+      return f'Uniq( {s.uid} )', 'uniq'
+    if x < 0.80:
       return r.choice(['Inc2()', 'Inc2( 8 )', 'Inc2( amount=1 )', 'Inc2( 8, 2 )', 'Inc2( amount=2 )']), 'inc2'
     if x < 0.83:
       pool = LT_CLEAN + (LT_DIRTY if s.dirty else [])
@@ -490,20 +599,21 @@ class HGen:
       # a list of components of ONE class whose elements are built with DIFFERENT arguments (same interface), also nested lists
       s.features.add('array-varying-params')
       k, b, cn = r.randrange(2, 4), r.randrange(0, 3), f'va{c}'
-      form = r.randrange(7 if earlier else 6)
-      if form == 5: e = f'[ Inc2( 8 ) for i in range({k}) ]'
+      form = r.randrange(8 if earlier else 7)
+      if form == 7 or (form == 6 and not earlier): form = 7; e = f'[ VAdd( 8, i+{b} ) for i in range({k}) ]'
+      elif form == 5: e = f'[ Inc2( 8 ) for i in range({k}) ]'
       elif form == 0: e = f'[ Off( 8, i+{b} ) for i in range({k}) ]'
       elif form == 1: e = f'[ Wide( a0=i, a9={b} ) for i in range({k}) ]'
       elif form == 2: e = f"[ Sel( [ 'add', 'sub' ][ i%2 ], 't' ) for i in range({k}) ]"
       elif form == 3: e = f'[ Par( Bits8, i+1 ) for i in range({k}) ]'
       elif form == 4: e = f'[ [ Off( 8, i+2*j+{b} ) for i in range(2) ] for j in range({k}) ]'; s.features.add('nested-list')
-      else: e = f'[ {r.choice(earlier)}( i ) for i in range({k}) ]'; s.features.add('nested')
+      elif form == 6: e = f'[ {r.choice(earlier)}( i ) for i in range({k}) ]'; s.features.add('nested')
       L.append(f's.{cn} = {e}')
-      kids.append((cn, ['off', 'wide', 'sel', 'par', 'off2d', 'inc2', 'boxarr'][form], k, e))
+      kids.append((cn, ['off', 'wide', 'sel', 'par', 'off2d', 'inc2', 'boxarr', 'vph'][form], k, e))
       for ref in ([f's.{cn}[{i}]' for i in range(k)] if form != 4 else [f's.{cn}[{j}][{i}]' for j in range(k) for i in range(2)]):
         L.append(f'{ref}.in_ //= s.in_'); outs.append(f'{ref}.out')
     for cn, kind, k, e in [x for x in kids if not x[0].startswith('va')]:
-      eight = kind in ('leaf', 'wide', 'off', 'sel', 'box', 'inc2') and '( 4 )' not in e
+      eight = kind in ('leaf', 'wide', 'off', 'sel', 'box', 'inc2', 'vph', 'uniq') and '( 4 )' not in e
       refs = [f's.{cn}'] if not k else [f's.{cn}[{i}]' for i in range(k)]
       for ref in refs:
         if eight:
@@ -514,7 +624,7 @@ class HGen:
     L += ['@update', 'def up_w0():', f'  s.w0 @= {acc}', '@update', 'def up_out():', '  t = s.w0 + k', '  s.w1 @= t', '  s.out @= s.w1 + 1']
     if s.dirty:
       plain = [cn for cn, kind, k, e in kids if not k and kind in ('leaf', 'wide', 'off', 'sel', 'box', 'inc2')]
-      for trig in r.sample(['wire-subport', 'port-subport', 'ifc-port', 'blk-sig', 'reserved-inst', 'sv2009-kw', 'arr-inst', 'tmpvar', 'neg-param', 'odd-param', 'colliding-params'], r.choice([0, 1, 1, 2])):
+      for trig in r.sample((['explicit-name-shared'] if top else []) + ['wire-subport', 'port-subport', 'ifc-port', 'blk-sig', 'reserved-inst', 'sv2009-kw', 'arr-inst', 'tmpvar', 'neg-param', 'odd-param', 'colliding-params'], r.choice([0, 1, 1, 2])):
         s.features.add(trig)
         if trig == 'wire-subport' and plain:
           L += [f's.{plain[0]}__out = Wire( 8 )', '@update', 'def up_alias():', f'  s.{plain[0]}__out @= s.in_ & 3']
@@ -537,6 +647,10 @@ class HGen:
           L += [f's.neg = Off( 8{r.choice(["", ", -1", ", -2"])} )']
         elif trig == 'odd-param':
           L += [f's.odd = Sel( {r.choice(["a/b", "it" + chr(39) + "s", "a-b", "a+b", "x:y", "p,q"])!r} )']
+        elif trig == 'explicit-name-shared':
+          v = r.randrange(20, 40)
+          L += [f's.xs0 = Inc2( 8, {v} ); s.xs1 = Inc2( 8, {v} )', 's.xs0.in_ //= s.in_; s.xs1.in_ //= s.in_']
+          s.post.append(f"  top.{r.choice(['xs0', 'xs1'])}.set_metadata( VerilogTranslationPass.explicit_module_name, 'Shared_{s.name}' )")
         elif trig == 'colliding-params':
           L += ["s.cp0 = Sel( 'add', 'x__tag_y' )", "s.cp1 = Sel( 'add__tag_x', 'y' )"]
     body = '\n'.join('    ' + l for l in L)
@@ -551,6 +665,7 @@ class HGen:
     r, out = s.rng, []
     for cn, kind, k, e in s.kidmap.get(cname, []):
       if kind == 'inc2' and not re.search(r'Inc2\( 8, ', e): arg, val = 'amount', r.choice([3, 4, 5])
+      elif kind == 'vph' and e in ('VAdd()', 'VAdd( amt=2 )', 'VAdd( 8 )'): arg, val = 'amt', r.choice([4, 5])
       elif kind == 'wide': arg, val = 'a3', r.randrange(10, 90)
       elif kind == 'par' and (re.fullmatch(r'Par\( [^,]+ \)', e) or 'n=' in e): arg, val = 'n', r.choice([2, 3])
       elif kind == 'box' and ('()' in e or 'k=' in e): arg, val = 'k', r.choice([1, 2])
@@ -580,15 +695,23 @@ class HGen:
         if deep:
           path, arg, val, kind, e = r.choice(deep)
           sp.append(f'  top.set_param( "{path}.construct", {arg}={val} )'); s.features.add('deep-set-param')
-    build = f'def build():\n  top = {cn}()\n' + '\n'.join(sp) + ('\n' if sp else '') + '  return top\n'
+    # explicit module names: only on instances whose definition nobody else shares (Uniq) and on placeholders (children, list elements)
+    for c, kind, k, e in s.kidmap[cn]:
+      if kind in ('uniq', 'vph') and r.random() < 0.6:
+        idx = '' if not k else f'[{r.randrange(k)}]'
+        s.post.append(f"  top.{c}{idx}.set_metadata( VerilogTranslationPass.explicit_module_name, 'Nm_{s.name}_{c}' )"); s.features.add('explicit-name')
+    if any(kind == 'vph' for c_, kind, k_, e_ in sum(s.kidmap.values(), [])): s.features.add('placeholder')
+    build = f'def build():\n  top = {cn}()\n' + '\n'.join(sp) + ('\n' if sp else '') + '  top.elaborate()\n' + '\n'.join(s.post) + ('\n' if s.post else '') + '  top._c13_done = True\n  return top\n'
     return f'from pymtl3 import *\nfrom {auxmod.replace("aux", "lib")} import *\nimport {auxmod} as AUXMOD\n' + '\n'.join(txt) + build
 
 def directed(auxmod):
   """(name, feature, expected rejection?, construct body lines)"""
   D = []
-  def add(name, feat, lines, reject=False, sp=()):
+  def add(name, feat, lines, reject=False, sp=(), names=()):
     body = '\n'.join('    ' + l for l in ['s.in_ = InPort( 8 ); s.out = OutPort( 8 )'] + lines)
-    build = f'def build():\n  top = {name}()\n' + ''.join(f'  top.set_param( "top.{p_}.construct", {kv} )\n' for p_, kv in sp) + '  return top\n'
+    build = f'def build():\n  top = {name}()\n' + ''.join(f'  top.set_param( "top.{p_}.construct", {kv} )\n' for p_, kv in sp)
+    if names: build += '  top.elaborate()\n' + ''.join(f"  top.{p_}.set_metadata( VerilogTranslationPass.explicit_module_name, {n_!r} )\n" for p_, n_ in names) + '  top._c13_done = True\n'
+    build += '  return top\n'
     D.append((name, feat, reject, f'from pymtl3 import *\nfrom {auxmod.replace("aux", "lib")} import *\nimport {auxmod} as AUXMOD\n' + f'class {name}( Component ):\n  def construct( s ):\n{body}\n{build}'))
   conn = lambda *cs: [f's.{c}.in_ //= s.in_' for c in cs]
   add('D_same_name_factories', 'same-name-diff-body', ['s.a = fac_add()( 8 ); s.b = fac_sub()( 8 )'] + conn('a', 'b') + ['@update', 'def up():', '  s.out @= s.a.out ^ s.b.out'])
@@ -611,6 +734,13 @@ def directed(auxmod):
       sp=[('n1', 'amount=4'), ('n2', 'amount=5'), ('n4[0]', 'amount=4'), ('n4[1]', 'amount=6')])
   add('D_set_param_below_child', 'deep-set-param', ['s.x1 = Box2(); s.x2 = Box2(); s.x3 = Box2(); s.x4 = Box2( 1 )'] + conn('x1', 'x2', 'x3', 'x4'),
       sp=[('x2.y', 'amount=5'), ('x3.z[1]', 'amount=6'), ('x4.y', 'amount=5')])
+  add('D_placeholders', 'placeholder', ['s.a_ph = VAdd(); s.b_inc = Uniq( 3 ); s.c_ph = VAdd( 8, 3 ); s.d_ph = VAdd( amt=3 ); s.e_ph = VPass(); s.f_ph = VPass(); s.g = [ VAdd( 8, 1 ) for _ in range(2) ]; '
+      's.h = [ VAdd( 8, 4+i ) for i in range(2) ]; s.i_ph = VAdd( 4 ); s.j = Inc2( 8, 9 ); s.k_ph = VAdd()'] + conn('a_ph', 'b_inc', 'c_ph', 'd_ph', 'e_ph', 'f_ph', 'j', 'k_ph'),
+      sp=[('k_ph', 'amt=6')])
+  add('D_placeholders_explicit_names', 'placeholder', ['s.a_ph = VAdd(); s.b_inc = Uniq( 3 ); s.c_ph = VAdd( 8, 3 ); s.e_ph = VPass(); s.g = [ VAdd( 8, 1 ) for _ in range(2) ]; s.h = [ VAdd( 8, 4+i ) for i in range(2) ]; s.u = Uniq( 5 )'] +
+      conn('a_ph', 'b_inc', 'c_ph', 'e_ph', 'u'), names=[('a_ph', 'MyAdd'), ('b_inc', 'MyUniq3'), ('e_ph', 'MyPass'), ('g[1]', 'MyG1'), ('h[0]', 'MyH0')])
+  add('D_explicit_name_shared_first', 'explicit-name-shared', ['s.a = Inc2( 8, 7 ); s.b = Inc2( 8, 7 ); s.c = Inc2( 8, 7 )'] + conn('a', 'b', 'c'), names=[('a', 'MyInc')])
+  add('D_explicit_name_shared_later', 'explicit-name-shared', ['s.a = Inc2( 8, 7 ); s.b = Inc2( 8, 7 )'] + conn('a', 'b'), names=[('b', 'MyInc')])
   add('D_params_ints', 'int-params', ['s.a = LeafShared( 8 ); s.b = LeafShared( 4 ); s.c = LeafShared( 16 ); s.d = Off( 8, 1 ); s.e = Off( 8, 2 ); s.f = Off( 4, 1 )'])
   def drive(lines, specs):
     out = list(lines)
@@ -637,19 +767,39 @@ def directed(auxmod):
   add('D_reserved_port', 'reserved-signal', ['s.logic = OutPort( 8 )', 's.logic //= s.in_'], reject=True)
   add('D_reserved_block', 'reserved-signal', ['@update', 'def begin():', '  s.out @= s.in_'], reject=True)
   add('D_param_address', 'addr-param', ['s.a = Cb( some_function )'] + conn('a'))
-  add('D_param_set_order', 'set-param', ["s.a = Cb( frozenset( [ 'alpha', 'beta', 'gamma', 'delta', 'eps' ] ) )"] + conn('a'))
+  add('D_param_set_order', 'frozenset-param', ["s.a = Cb( frozenset( [ 'alpha', 'beta', 'gamma', 'delta', 'eps' ] ) )"] + conn('a'))
   return D
 
 # ====================================================================== translation drivers
+def prepared(top):
+  """elaborate (unless build() already did) and configure the placeholders of the whole hierarchy"""
+  from pymtl3.passes.backends.verilog import VerilogPlaceholderPass
+  if not getattr(top, '_c13_done', False): top.elaborate()
+  top.apply(VerilogPlaceholderPass())
+  return top
+
 def translate_obj(top):
   from pymtl3.passes.backends.verilog import VerilogTranslationPass
-  top.elaborate()
+  prepared(top)
   top.set_metadata(VerilogTranslationPass.enable, True)
   top.apply(VerilogTranslationPass())
   fn = top.get_metadata(VerilogTranslationPass.translated_filename)
   txt = open(fn).read()
   os.remove(fn)
   return txt, top.get_metadata(VerilogTranslationPass.translated_top_module)
+
+def translate_multi(top3, paths):
+  """ONE VerilogTranslationPass run with several separately enabled sub-trees -> {path: (module name, file name, text)}"""
+  from pymtl3.passes.backends.verilog import VerilogTranslationPass as V
+  ms = [eval('T' + p[1:], {'T': top3}) for p in paths]
+  for m in ms: m.set_metadata(V.enable, True)
+  top3.apply(V())
+  out = {}
+  for p, m in zip(paths, ms):
+    fn = m.get_metadata(V.translated_filename)
+    out[p] = (m.get_metadata(V.translated_top_module), fn, open(fn).read())
+  for fn in {v[1] for v in out.values()}: os.remove(fn)
+  return out
 
 def translate_sub(top2, path):
   """translate ONE instance (given by its repr path 's.a.b[1]') of an elaborated, otherwise identical hierarchy as a translation
@@ -661,7 +811,7 @@ def translate_sub(top2, path):
     top2.apply(V())
     fn = m.get_metadata(V.translated_filename)
     txt = open(fn).read(); os.remove(fn)
-    return txt, m.get_metadata(V.translated_top_module)
+    return txt, m.get_metadata(V.translated_top_module), fn
   finally:
     m.set_metadata(V.enable, False)
 
@@ -683,31 +833,47 @@ def subtree_sig(m, memo):
   """(class, effective arguments, children...) — equal signatures = identically constructed sub-hierarchies"""
   if id(m) not in memo:
     kids = sorted(m.get_child_components(repr), key=repr)
-    memo[id(m)] = (id(type(m)), tuple((k, vsig(v)) for k, v in eff_args(m)), tuple((repr(c)[len(repr(m)):], subtree_sig(c, memo)) for c in kids))
+    from pymtl3.passes.backends.verilog import VerilogTranslationPass as V
+    expl = m.get_metadata(V.explicit_module_name) if m.has_metadata(V.explicit_module_name) else ''
+    memo[id(m)] = (id(type(m)), tuple((k, vsig(v)) for k, v in eff_args(m)), tuple((repr(c)[len(repr(m)):], subtree_sig(c, memo)) for c in kids), expl or '')
   return memo[id(m)]
 
 WORKER = r'''
 import sys, json, os, importlib.util, tempfile
-from pymtl3.passes.backends.verilog import VerilogTranslationPass
+from pymtl3.passes.backends.verilog import VerilogTranslationPass as V, VerilogPlaceholderPass
 jobs = json.load(open(sys.argv[1]))
 os.chdir(tempfile.mkdtemp(prefix='c13w-', dir=sys.argv[2]))
 sys.path.insert(0, sys.argv[2])
 out = {}
-for k, (path, cls) in enumerate(jobs):
+def fresh(mod, cls):
+  top = mod.build() if hasattr(mod, 'build') else getattr(mod, cls)()
+  if not getattr(top, '_c13_done', False): top.elaborate()
+  top.apply(VerilogPlaceholderPass())
+  return top
+for k, job in enumerate(jobs):
+  path, cls, multi = (list(job) + [[]])[:3]
   try:
     spec = importlib.util.spec_from_file_location('c13w_' + cls, path)
     mod = importlib.util.module_from_spec(spec); sys.modules['c13w_' + cls] = mod
     spec.loader.exec_module(mod)
     res = []
+    if multi:
+      # several separately enabled sub-trees in ONE pass run, before anything else of this design was translated here
+      top = fresh(mod, cls)
+      ms = [eval('T' + p[1:], {'T': top}) for p in multi]
+      for m in ms: m.set_metadata(V.enable, True)
+      top.apply(V())
+      res.append({p: [m.get_metadata(V.translated_top_module), m.get_metadata(V.translated_filename), open(m.get_metadata(V.translated_filename)).read()] for p, m in zip(multi, ms)})
+    else:
+      res.append({})
     for rep in range(2):
-      top = mod.build() if hasattr(mod, 'build') else getattr(mod, cls)()
-      top.elaborate()
-      top.set_metadata(VerilogTranslationPass.enable, True)
-      top.apply(VerilogTranslationPass())
-      res.append(open(top.get_metadata(VerilogTranslationPass.translated_filename)).read())
+      top = fresh(mod, cls)
+      top.set_metadata(V.enable, True)
+      top.apply(V())
+      res.append(open(top.get_metadata(V.translated_filename)).read())
     out[cls] = res
   except Exception as e:
-    out[cls] = ['EXC ' + type(e).__name__]
+    out[cls] = [{}, 'EXC ' + type(e).__name__ + ' ' + str(e)[:200]]
 json.dump(out, open(sys.argv[3], 'w'))
 '''
 
@@ -768,7 +934,7 @@ EXPECTED_FROM = {
   'C13:set-param-below-instance-different-body': {'deep-set-param'},
   'C13:container-of-types-param-different-body': {'list-of-struct-types'},
   'C13:nondeterministic-param-str-address': {'addr-param'},
-  'C13:nondeterministic-param-str-set-order': {'set-param'},
+  'C13:nondeterministic-param-str-set-order': {'frozenset-param'},
 }
 def vkey(key, feats):
   exp = EXPECTED_FROM.get(key)
@@ -782,12 +948,12 @@ def run(ctx):
   from pymtl3.passes.backends.verilog.util.utility import verilog_keyword
   sys.path.insert(0, str(ctx.scratch))
   auxmod = f'c13aux_{os.getpid()}'
-  (ctx.scratch / f'{auxmod}.py').write_text(AUX)
-  (ctx.scratch / f'{auxmod.replace("aux", "lib")}.py').write_text(PRELUDE)      # ONE library module shared by all designs of the run
+  write_lib(ctx.scratch, auxmod)
 
   designs = []     # (name, feature set, expect_reject, source)
   for name, feat, rej, src in directed(auxmod): designs.append((name, {feat}, rej, src, 'directed'))
-  nrand = 24 if quick else 420
+  nrand = 16 if quick else 420
+  tph = {'start': time.time()}
   for j in range(nrand):
     dirty = (j % 2 == 1)
     g = HGen(random.Random(rng.randrange(1 << 30)), f'H{j}', dirty)
@@ -798,7 +964,7 @@ def run(ctx):
   tab_defs, acc_cases, acc_meta = [], [], []
   name_cases, name_meta, hash_tbl = [], [], {}
   proviso_cases = []
-  jobs, inproc = [], {}
+  jobs, inproc, multi_ref = [], {}, {}
   ntrans = nrej = 0
   alone_cache_hits = 0
   for name, feats, expect_rej, src, kind in designs:
@@ -823,7 +989,6 @@ def run(ctx):
       ctx.note(f'design {name}: a reserved word was expected to be rejected but the design was translated')
     ntrans += 1
     inproc[name] = (txt, mod.__file__, str(path), mod.__name__)
-    jobs.append((str(path), name))
     for f in feats: ctx.hist['feature:' + f] = ctx.hist.get('feature:' + f, 0) + 1
     # ---- (a) parse the real output into the module table
     try:
@@ -852,17 +1017,16 @@ def run(ctx):
       if key not in alone:
         try:
           # the SAME instance of an identically built second hierarchy (same arguments, same set_param calls), translated as a top
-          if top2 is None:
-            top2 = build(); top2.elaborate()
-          atxt, amod = translate_sub(top2, repr(m))
+          if top2 is None: top2 = prepared(build())
+          atxt, amod, afn = translate_sub(top2, repr(m))
           at = parse_sv(atxt)
           am = next((x for x in at['mods'] if x['name'] == amod), None)
-          alone[key] = (amod, am['body'] if am else None)
+          alone[key] = (amod, am['body'] if am else None, atxt, afn)
         except Exception as e:
-          alone[key] = (None, None); ctx.note(f'{name}: instance {m} could not be translated alone: {type(e).__name__}')
+          alone[key] = (None, None, None, None); ctx.note(f'{name}: instance {m} could not be translated alone: {type(e).__name__}')
       else:
         alone_cache_hits += 1
-      amod, abody = alone[key]
+      amod, abody = alone[key][:2]
       if abody is None: continue
       # the module ACTUALLY instantiated for this instance in the parent's text must have the body the instance has alone
       insts.append((cand[0], intern(abody)))
@@ -872,6 +1036,65 @@ def run(ctx):
         # this instance is bound to a body that is not its own (reported through sharing_ok): the instantiations read from that body
         # say nothing about ITS children, so they are not judged separately
         below_misbound.add(id(m))
+    # ---- ONE pass run with several separately enabled sub-trees: each file must equal the sub-tree translated alone, and the
+    #      emitted file SET must define every module name with one body (functional_b in Coq) and be well formed file by file
+    from pymtl3.passes.backends.verilog import VerilogPlaceholder as _VP
+    direct = [m for (m, parent, iid) in comps[1:] if parent is top and id(m) in sigmemo and alone.get(sigmemo[id(m)], (None,) * 4)[2] is not None]
+    multi_paths = []
+    if len(direct) >= 2 and (kind == 'directed' or 'placeholder' in feats or int(hashlib.sha1(name.encode()).hexdigest(), 16) % 2 == 0 or not quick):
+      mrng = random.Random(hashlib.sha1((name + str(ctx.seed)).encode()).hexdigest())
+      ph = [m for m in direct if isinstance(m, _VP)]
+      S = mrng.sample(direct, min(len(direct), mrng.choice([2, 3, 4])))
+      if ph:
+        # order matters inside one pass run (sub-trees are visited in repr order): a placeholder top with an ordinary sub-tree
+        # after it and one before it, whenever the design has them
+        p_ = mrng.choice(ph)
+        later = [m for m in direct if not isinstance(m, _VP) and repr(m) > repr(p_)]
+        earlier_ = [m for m in direct if not isinstance(m, _VP) and repr(m) < repr(p_)]
+        S += [p_] + ([mrng.choice(later)] if later else []) + ([mrng.choice(earlier_)] if earlier_ else [])
+        S = list({id(m): m for m in S}.values())
+      # two sub-trees that already alias each other (same alone file, different alone text) are judged by the sharing check of
+      # the whole design; enabling both would only make one overwrite the other
+      seenf, S2 = {}, []
+      for m in sorted(S, key=repr):
+        a_ = alone[sigmemo[id(m)]]
+        if seenf.setdefault(os.path.basename(a_[3]), a_[2]) == a_[2]: S2.append(m)
+      S = S2
+      multi_paths = [repr(m) for m in S]
+      try:
+        mres = translate_multi(prepared(build()), multi_paths)
+      except Exception as e:
+        mres = None; ctx.note(f'{name}: multi-enable run {multi_paths} failed: {type(e).__name__}: {str(e)[:120]}')
+      if mres is not None:
+        fileset, pairs = {}, []
+        for m in S:
+          pth = repr(m); mn, fn, mtxt = mres[pth]
+          amod, abody, atxt, afn = alone[sigmemo[id(m)]]
+          ctx.count((name, 'multi', pth), True, cls='multi-enable-subtree')
+          if mn != amod or mtxt != atxt or os.path.basename(fn) != os.path.basename(afn):
+            ln, x, y = first_diff_line(atxt, mtxt)
+            ctx.violation(vkey('C13:multi-enable-differs-from-alone', feats), f'design {name}: sub-tree {pth} translated in one pass run together with {[q for q in multi_paths if q != pth]} is module {mn!r} in file '
+                          f'{os.path.basename(fn)}, but translated alone it is {amod!r} in {os.path.basename(afn)}' + ('' if mtxt == atxt else f'; texts differ from line {ln}: {x!r} vs {y!r}'),
+                          {'design_source': src, 'top': name, 'enabled': multi_paths, 'subtree': pth, 'together': [mn, os.path.basename(fn)], 'alone': [amod, os.path.basename(afn)]})
+          fileset.setdefault(os.path.basename(fn), []).append((pth, mtxt))
+        ftabs = []
+        for fn, lst in sorted(fileset.items()):
+          try: ftabs.append((fn, parse_sv(lst[-1][1])))
+          except ParseError as e:
+            ctx.violation('C13:unparsable-output:multi', f'design {name}: file {fn} of a multi-enable run could not be parsed: {e}', {'design_source': src, 'top': name, 'enabled': multi_paths})
+        for fn, ft in ftabs:
+          for md in ft['mods']: pairs.append((md['name'], intern(md['body'])))
+          k = len(tab_defs)
+          last = fn == ftabs[-1][0] and not below_misbound      # the name -> body map of the whole file set is judged once, with the last file (not when the design already aliases)
+          tab_defs.append(f'Definition t{k} : table := {table_term(ft, intern)}.\nDefinition i{k} : list inst := [].\n'
+                          f'Definition f{k} : list inst := {coq_list([f"({cstr(a)}, {b})" for a, b in pairs]) if last else "[]"}.')
+          acc_cases += [f'({cj}%nat, (t{k}, i{k}))' for cj in range(4)] + [f'(6%nat, (t{k}, f{k}))', f'(7%nat, (t{k}, f{k}))']
+          acc_meta.append((f'{name}[{fn}]', src, feats | {'multi-enable'}, ft, [], lst[-1][1], 'multi-file', multi_paths, list(pairs) if last else []))
+        multi_ref[name] = {repr(m): (alone[sigmemo[id(m)]][0], os.path.basename(alone[sigmemo[id(m)]][3]), alone[sigmemo[id(m)]][2]) for m in S}
+    # structural cause: an ordinary instance that carries explicit_module_name while another instance shares its definition
+    expl_groups = {d[3][:3] for d in detail if d[3][3] and not issubclass(d[2], _VP)}
+    if any(sum(1 for d in detail if d[3][:3] == g) > 1 for g in expl_groups): feats = feats | {'explicit-name-on-shared-definition'}
+    jobs.append((str(path), name, multi_paths if name in multi_ref else []))
     # ---- every emitted module other than the top must be instantiated somewhere (an orphan means an instance was bound elsewhere)
     usedmods = {a for m in tbl['mods'] for a, _ in m['insts']} | {topmod}
     orphans = sorted(m['name'] for m in tbl['mods'] if m['name'] not in usedmods)
@@ -888,7 +1111,7 @@ def run(ctx):
     # ---- same class + same arguments must share one definition
     byarg = {}
     for d in detail:
-      byarg.setdefault(d[3], set()).add(d[1])
+      if d[3][:3] not in expl_groups: byarg.setdefault(d[3], set()).add(d[1])
     for key, names in byarg.items():
       if len(names) > 1:
         ctx.violation('C13:same-class-same-params-not-shared', f'design {name}: instances of one class with equal arguments got different module names {sorted(names)}',
@@ -897,6 +1120,13 @@ def run(ctx):
     for (m, parent, iid) in comps:
       obs = used_name.get(id(m))
       if obs is None or (parent is not None and id(parent) in below_misbound): continue
+      from pymtl3.passes.backends.verilog import VerilogPlaceholder as _VP, VerilogTranslationPass as _VT
+      if parent is not None and not isinstance(m, _VP) and m.has_metadata(_VT.explicit_module_name) and m.get_metadata(_VT.explicit_module_name):
+        # an ordinary child with an explicit module name must be instantiated under exactly that name
+        if obs != m.get_metadata(_VT.explicit_module_name):
+          ctx.violation('C13:explicit-name-not-used', f'design {name}: instance {m} has explicit_module_name {m.get_metadata(_VT.explicit_module_name)!r} but is instantiated as {obs!r}',
+                        {'design_source': src, 'top': name, 'instance': repr(m)})
+        continue
       try:
         ps = [(k_, render_value(v)) for k_, v in eff_args(m)]
       except Exception as e:
@@ -910,6 +1140,7 @@ def run(ctx):
       name_meta.append((name, repr(m), type(m).__name__, ps, obs, src))
       proviso_cases.append(f'({cstr(type(m).__name__)}, {pterm})')
       ctx.count((type(m).__name__, tuple(ps)), True, cls='name-case')
+  tph['designs'] = time.time()
   # ---------------- reserved-word sweep: EVERY IEEE 1800-2017 keyword as port / wire / instance / update-block name.
   # Each small design must be rejected by the translator, or its table must pass idents_legal_b (decided in Coq below).
   import keyword as pykw
@@ -921,6 +1152,7 @@ def run(ctx):
     KwPort, kmod = sc.load_source(ctx, ksrc, 'KwPort')
     for kw in kws:
       for role in ('port', 'wire', 'inst', 'block'):
+        if quick and role in ('wire', 'inst') and kws.index(kw) % 3: continue          # quick tier: complete list as port and block names
         if role == 'block':
           if pykw.iskeyword(kw): continue          # not writable as `def <kw>()`
           mk = getattr(kmod, f'KwBlk_{kw}')
@@ -956,26 +1188,40 @@ def run(ctx):
   if ntrans < 0.7 * len(designs):
     ctx.violation('C13:harness-crash', f'only {ntrans} of {len(designs)} generated designs were translated: no correspondence', {'notes': ctx.notes[:10]}, found_input=False)
 
+  tph['sweep'] = time.time()
   # ---------------- Coq: acceptor on the real tables + sharing
-  defs = COQ_DEFS + '\n'.join(tab_defs) + '''
+  CONJ = '''
 Definition conj (c : nat * (table * list inst)) : bool :=
   let '(k, (t, l)) := c in
   match k with 0%nat => defined_once_b t | 1%nat => insts_defined_b t | 2%nat => idents_legal_b t | 3%nat => scopes_unique_b t
-  | 4%nat => sharing_ok t l | _ => modules_ok t && sharing_ok t l end.
+  | 4%nat => sharing_ok t l | 6%nat => functional_b l | 7%nat => modules_ok t && functional_b l | _ => modules_ok t && sharing_ok t l end.
 '''
-  bad = set(ctx.coq_bad_indices('acc', 'Base.Prelude SV.Modules', defs, 'nat * (table * list inst)', acc_cases, 'conj c', shard=300))
+  def coq_tables(tag, tabs, slots, group):
+    """evaluate the case slots of the given tables; every coqc file only carries the definitions of its own tables"""
+    groups = [tabs[i:i + group] for i in range(0, len(tabs), group)]
+    def one(gi):
+      g = groups[gi]
+      cases = [acc_cases[t * 6 + sl] for t in g for sl in slots]
+      b = ctx.coq_bad_indices(f'{tag}{gi}', 'Base.Prelude SV.Modules', COQ_DEFS + '\n'.join(tab_defs[t] for t in g) + CONJ, 'nat * (table * list inst)', cases, 'conj c', shard=len(cases) + 1, jobs=1)
+      return {g[i // len(slots)] * 6 + slots[i % len(slots)] for i in b}
+    with ThreadPoolExecutor(max_workers=8) as ex:
+      return set().union(*ex.map(one, range(len(groups)))) if groups else set()
+  # stage 1: the whole acceptor (modules_ok && sharing_ok, resp. modules_ok && functional_b) once per table;
+  # stage 2: the separate conjuncts, only for the tables it rejects
+  bad = coq_tables('accw', list(range(len(acc_meta))), [5], 24)
+  bad |= coq_tables('accc', sorted({i // 6 for i in bad}), [0, 1, 2, 3, 4], 12)
   rejected_designs = sorted({i // 6 for i in bad})
-  for di in range(len(acc_meta)):
-    if (di * 6 + 5 in bad) != any(di * 6 + c in bad for c in range(5)):
+  for di in rejected_designs:
+    if not any(di * 6 + c in bad for c in range(5)):
       ctx.violation('C13:harness-crash', f'modules_ok && sharing_ok disagrees with its conjuncts on design {acc_meta[di][0]}', {'design': acc_meta[di][0]}, found_input=False)
   bykind = {}
   for di in rejected_designs: bykind[acc_meta[di][6]] = bykind.get(acc_meta[di][6], 0) + 1
   ctx.extra['tables_rejected_by_kind'] = bykind
-  ctx.extra['tables_accepted_by_kind'] = {k: sum(1 for m in acc_meta if m[6] == k) - bykind.get(k, 0) for k in ('directed', 'random-clean', 'random-dirty', 'kw-sweep')}
+  ctx.extra['tables_accepted_by_kind'] = {k: sum(1 for m in acc_meta if m[6] == k) - bykind.get(k, 0) for k in ('directed', 'random-clean', 'random-dirty', 'kw-sweep', 'multi-file')}
   ctx.extra['tables_checked_in_coq'] = len(acc_meta)
   ctx.extra['tables_rejected_by_modules_ok_or_sharing_ok'] = len(rejected_designs)
   for di in rejected_designs:
-    name, src, feats, tbl, detail, txt, kind = acc_meta[di]
+    name, src, feats, tbl, detail, txt, kind = acc_meta[di][:7]
     failed = [c for c in range(5) if di * 6 + c in bad]
     rep = {'design_source': src, 'top': name, 'features': sorted(feats), 'failed_conjuncts': [['defined-once', 'instantiated-defined', 'identifiers-legal', 'scope-unique', 'sharing'][c] for c in failed]}
     found = False
@@ -985,7 +1231,11 @@ Definition conj (c : nat * (table * list inst)) : bool :=
       ctx.violation(vkey('C13:module-defined-twice', feats), f'design {name}: module(s) {d} defined more than once in the emitted file', dict(rep, modules=d))
     if 1 in failed:
       d = sorted({a for m in tbl['mods'] for a, _ in m['insts'] if a not in names}); found = True
-      ctx.violation(vkey('C13:undefined-module', feats), f'design {name}: instantiated module(s) {d} are not defined in the emitted file', dict(rep, modules=d))
+      if 'explicit-name-on-shared-definition' in feats:
+        ctx.violation('C13:explicit-name-on-shared-definition-undefined-module', f'design {name}: one of several instances that share a definition (same class, same arguments) carries explicit_module_name; the definition is '
+                      f'emitted under one name only, so instantiated module(s) {d} are not defined in the emitted file', dict(rep, modules=d))
+      else:
+        ctx.violation(vkey('C13:undefined-module', feats), f'design {name}: instantiated module(s) {d} are not defined in the emitted file', dict(rep, modules=d))
     if 2 in failed:
       items = [(n, 'module-name') for n in names] + [(n, 'type-name') for n, _ in tbl['types']] + [(f, 'struct-field') for _, fs in tbl['types'] for f in fs]
       for m in tbl['mods']: items += list(m['decls']) + [(x, 'loop-var') for l in m['loops'] for x in l]
@@ -1010,10 +1260,18 @@ Definition conj (c : nat * (table * list inst)) : bool :=
       for nm in sorted({n for n in unit if unit.count(n) > 1} - {n for n in names if names.count(n) > 1}):
         found = True
         ctx.violation(vkey('C13:dup-ident-unit-scope', feats), f'design {name}: {nm!r} is declared twice in the compilation unit', dict(rep, identifier=nm))
-    if 4 in failed:
+    if 4 in failed and kind == 'multi-file':
+      prs = acc_meta[di][8]
+      for nm in sorted({a for a, b in prs if len({y for x, y in prs if x == a}) > 1}):
+        found = True
+        ctx.violation(vkey('C13:file-set-module-name-two-bodies', feats), f'design {name}: one pass run with sub-trees {acc_meta[di][7]} enabled emits module {nm!r} with different bodies in different files: a module name aliases different hardware',
+                      dict(rep, enabled=acc_meta[di][7], module=nm))
+    elif 4 in failed:
       bodies = {m['name']: intern(m['body']) for m in reversed(tbl['mods'])}
       for d in detail:
         path, mn, cls_, key, b, amod, own, tcont = d
+        if mn not in bodies:
+          found = True; continue          # bound to an undefined module: reported by the instantiated-defined conjunct
         if bodies.get(mn) != b and amod != mn:
           found = True
           ctx.violation('C13:instance-bound-to-other-module', f'design {name}: instance {path} is instantiated as module {mn!r} in its parent, but translated alone it is module {amod!r} '
@@ -1040,10 +1298,11 @@ Definition conj (c : nat * (table * list inst)) : bool :=
   for d in [x for meta in acc_meta for x in meta[4] if x[5] != x[1]][:20]:
     ctx.note(f'instance {d[0]}: module name in hierarchy {d[1]!r} != name when translated alone {d[5]!r} (bodies are compared all the same)')
   if acc_meta:
-    nm, src, feats, tbl, detail, txt, kind = acc_meta[min(4, len(acc_meta) - 1)]
+    nm, src, feats, tbl, detail, txt, kind = acc_meta[min(4, len(acc_meta) - 1)][:7]
     ctx.sample({'design': nm, 'features': sorted(feats), 'modules': [(m['name'], [a for a, _ in m['insts']], [d for d, _ in m['decls']][:14]) for m in tbl['mods']][:8],
                 'typedefs': tbl['types'][:4]})
 
+  tph['coq-acc'] = time.time()
   # ---------------- Coq: module-name model vs observed names
   H = coq_list([f'({cstr(k)}, {cstr(v)})' for k, v in sorted(hash_tbl.items())])
   ndefs = COQ_DEFS + f'Definition H : list (str * str) := {H}.\n'
@@ -1067,6 +1326,7 @@ Definition conj (c : nat * (table * list inst)) : bool :=
   if missing: ctx.note(f'entries of pymtl3 verilog_keyword that are not IEEE 1800-2017 keywords: {missing}')
   ctx.extra['reserved_words_in_model_but_not_in_pymtl3'] = sorted(SV2017 - set(verilog_keyword))
 
+  tph['coq-names'] = time.time()
   # ---------------- determinism: fresh processes, 4 hash seeds (differential, NOT proof)
   seeds = [1, 2, 4242, rng.randrange(5, 1 << 31)]
   feat_of = {m[0]: m[2] for m in acc_meta}
@@ -1082,18 +1342,30 @@ Definition conj (c : nat * (table * list inst)) : bool :=
       outs = list(ex.map(lambda js: run_workers(ctx, [js[0]], [js[1]]), [(j, sd) for j in pick for sd in (7, 1000003)]))
     for o in outs:
       for sd, d in o.items():
-        for nm, r in d.items(): single.setdefault(nm, []).append((f'single-process-seed{sd}', r[0]))
+        for nm, r in d.items(): single.setdefault(nm, []).append((f'single-process-seed{sd}', r[1]))
   except Exception as e:
     ctx.violation('C13:harness-crash', f'single-design determinism workers could not run: {e!r}', {'traceback': traceback.format_exc()}, found_input=False)
   ctx.extra['designs_translated_in_their_own_fresh_process'] = len(single)
   ndet = 0
-  for path, name in jobs:
+  for path, name, mpaths in jobs:
     texts = list(single.get(name, []))
     for sd in seeds:
       r = res.get(sd, {}).get(name)
       if r is None: continue
-      for rep, t in enumerate(r): texts.append((f'seed{sd}#{rep}', t))
+      for rep, t in enumerate(r[1:]): texts.append((f'seed{sd}#{rep}', t))
     base, _, lpath, mname = inproc[name]
+    # several separately enabled sub-trees translated first thing in a fresh process == each sub-tree translated alone (in-process)
+    for sd in seeds:
+      mr = (res.get(sd, {}).get(name) or [{}])[0]
+      for pth, (mn, fn, mtxt) in (mr.items() if isinstance(mr, dict) else []):
+        amod, afn, atxt = multi_ref[name][pth]
+        atxt = atxt.replace(_, lpath).replace(mname + '.', 'c13w_' + name + '.')
+        ndet += 1
+        if mn != amod or os.path.basename(fn) != afn or mtxt != atxt:
+          ln, x, y = first_diff_line(atxt, mtxt)
+          ctx.violation(vkey('C13:multi-enable-differs-from-alone', feat_of.get(name, set())), f'design {name}: sub-tree {pth} translated together with {[q for q in mpaths if q != pth]} in a fresh process (PYTHONHASHSEED={sd}) is module {mn!r} in '
+                        f'{os.path.basename(fn)}; alone it is {amod!r} in {afn}; first difference at line {ln}: {x!r} vs {y!r}',
+                        {'design_source': src_of.get(name), 'top': name, 'enabled': mpaths, 'subtree': pth})
     texts.append(('inproc-seed0', base.replace(_, lpath).replace(mname + '.', 'c13w_' + name + '.')))
     ndet += len(texts)
     ctx.count((name, 'determinism'), True, cls='determinism-design')
@@ -1102,11 +1374,14 @@ Definition conj (c : nat * (table * list inst)) : bool :=
       if t != ref[1]:
         ln, x, y = first_diff_line(ref[1], t)
         feats = feat_of.get(name, set())
-        kind = 'param-str-address' if 'addr-param' in feats else 'param-str-set-order' if 'set-param' in feats else 'output-differs'
+        kind = 'param-str-address' if 'addr-param' in feats else 'param-str-set-order' if 'frozenset-param' in feats else 'output-differs'
         ctx.violation(vkey(f'C13:nondeterministic-{kind}', feats), f'design {name}: translation is not byte-identical between {ref[0]} and {lab} (first difference at line {ln}: {x!r} vs {y!r})',
                       {'design_source': src_of.get(name), 'top': name, 'runs': [ref[0], lab], 'line': ln, 'a': x, 'b': y,
                        'how': 'translate the design in two fresh interpreters with different PYTHONHASHSEED and diff the .v files'})
         break
+  tph['determinism'] = time.time()
+  ks = list(tph)
+  ctx.extra['phase_seconds'] = {ks[i]: round(tph[ks[i]] - tph[ks[i - 1]], 1) for i in range(1, len(ks))}
   ctx.extra['determinism_translations_compared'] = ndet
   ctx.extra['determinism_hash_seeds'] = [0] + seeds
   ctx.extra['level_note'] = ('byte-identical output across processes / hash seeds is DIFFERENTIAL TESTING (4 fresh subprocesses + in-process, each design translated twice per process), not proof; '
@@ -1150,9 +1425,7 @@ def _replay(ctx, r):
     print('replay file carries no design'); return 1
   sys.path.insert(0, str(ctx.scratch))
   m = re.search(r'^import (c13aux_\d+) as AUXMOD', src, re.M)
-  if m:
-    (ctx.scratch / f'{m.group(1)}.py').write_text(AUX)
-    (ctx.scratch / f'{m.group(1).replace("aux", "lib")}.py').write_text(PRELUDE)
+  if m: write_lib(ctx.scratch, m.group(1))
   cls, mod = sc.load_source(ctx, src, topn)
   build = getattr(mod, 'build', cls)
   top = build()
@@ -1160,7 +1433,7 @@ def _replay(ctx, r):
   tbl = parse_sv(txt)
   print(txt)
   bad = 0
-  top2 = build(); top2.elaborate()
+  top2 = prepared(build())
   orphans = sorted(x['name'] for x in tbl['mods'] if x['name'] not in ({a for y in tbl['mods'] for a, _ in y['insts']} | {topmod}))
   if orphans: print('emitted but never instantiated:', orphans); bad += 1
   names = [x['name'] for x in tbl['mods']]
@@ -1181,17 +1454,25 @@ def _replay(ctx, r):
     if not cand: continue
     used[id(m)] = cand[0]
     try:
-      atxt, amod = translate_sub(top2, repr(m))
+      atxt, amod, _fn = translate_sub(top2, repr(m))
       am = next((x for x in parse_sv(atxt)['mods'] if x['name'] == amod), None)
     except Exception as e:
       print(f'instance {m}: not translatable alone ({type(e).__name__})'); continue
     same = am is not None and cand[0] in modidx and am['body'] == modidx[cand[0]]['body']
     print(f'instance {m}: module {cand[0]!r}; alone it is {amod!r}; body identical to the shared definition: {same}')
     if not same: bad += 1
+  if rp.get('enabled'):
+    mres = translate_multi(prepared(build()), rp['enabled'])
+    top4 = prepared(build())
+    for pth, (mn, fn, mtxt) in mres.items():
+      atxt, amod, afn = translate_sub(top4, pth)
+      same = (mn, os.path.basename(fn), mtxt) == (amod, os.path.basename(afn), atxt)
+      print(f'sub-tree {pth}: together with {[q for q in rp["enabled"] if q != pth]} -> module {mn!r} file {os.path.basename(fn)}; alone -> module {amod!r} file {os.path.basename(afn)}; identical: {same}')
+      if not same: bad += 1
   if rp.get('runs'):
     jobs = [(mod.__file__, topn)]
     res = run_workers(ctx, jobs, [1, 2])
-    a, b = res[1][topn][0], res[2][topn][0]
+    a, b = res[1][topn][1], res[2][topn][1]
     print('byte-identical under PYTHONHASHSEED=1 and 2:', a == b)
     if a != b: print(first_diff_line(a, b)); bad += 1
   print('still failing' if bad else 'no longer failing')
